@@ -16,7 +16,7 @@ GraphT = List(Tup(Nat, List(Nat)))
 FtdT = List(Tup(List(Nat), List(Nat)))
 OrdsT = List(List(Nat))
 RuleCaseT = Tup(FruleT, List(ElabelT), GraphT, FtdT, OrdsT, Tup(Nat, List(FruleT), List(ElabelT)))
-GramCaseT = Tup(Bool, Nat, List(Nat), FhrgT, List(Tup(FtdT, OrdsT)), List(List(FruleT)), Tup(Nat, FhrgT),
+GramCaseT = Tup(Bool, Nat, List(Nat), FhrgT, List(Tup(FtdT, OrdsT)), List(List(FruleT)), Tup(Nat, Nat, FhrgT),
                 Tup(List(Tup(Nat, Nat)), List(Tup(List(Nat), Nat)), List(Tup(Nat, Nat)), List(Tup(List(Nat), Nat))))
 SpCaseT = Tup(List(Nat), FhrgT, FhrgT, List(Tup(List(Nat), List(Option(QQ)))))
 CloseT = Tup(List(Option(QQ)), List(Option(QQ)))
@@ -359,10 +359,10 @@ def run_case(spec, names, ids, method, entry, labels_mode, rng, out, violations,
     gw = cn.hrg(g, lambda r: gmaps[id(r)])
     empty = ([], [], gw[2], [])
     if gexc is not None:
-        impl = (exc_code(gexc), empty)
+        impl = (exc_code(gexc), 0, empty)
     else:
         try:
-            impl = (0, cn.hrg(gnew, lambda r: maps.get(id(r)) or cn.rule_maps(r)))
+            impl = (0, 0, cn.hrg(gnew, lambda r: maps.get(id(r)) or cn.rule_maps(r)))
         except Exception as e:
             violations.append(Violation("cannot canonicalise the new grammar: %r" % (e,), case=meta, call=calls_txt, corr="harness"))
             return
@@ -379,7 +379,7 @@ def run_case(spec, names, ids, method, entry, labels_mode, rng, out, violations,
         ws = [([ord(c) for c in b.els[el].name], [Fraction(v) for v in gen.flat(w)]) for el, w in sorted(spec["weights"].items())]
         sizes = max([1] + [_prod(spec["nlabels"][nl] for nl in r["nodes"]) for r in spec["rules"]])
         if sizes <= 300:
-            out["sp"].append(((list(spec["nlabels"]), gw, impl[1], ws), meta, calls_txt))
+            out["sp"].append(((list(spec["nlabels"]), gw, impl[2], ws), meta, calls_txt))
         try:
             with warnings.catch_warnings():
                 warnings.simplefilter("ignore")
@@ -476,10 +476,24 @@ def run(tier, seed):
     gcodes, n2 = run_model(GRAM, gvals, seed=seed, coq_sample=cs, tag="c05gram"); nk += n2; total += len(gvals)
     gx = run_ocaml(GRAMX, [v for v in gvals if v[6][0] == 0])
     g_exact = sum(1 for c in gx if c == 0)
-    for (v, meta, txt, spec, gexc), c in zip(out["gram"], gcodes):
+    # a verdict 7 / 8 (known findings F7 / F20) must not hide anything else: evaluate again without that test
+    todo = [(item, c) for item, c in zip(out["gram"], gcodes)]
+    results = []
+    for rnd in range(3):
+        again = []
+        for (item, c) in todo:
+            results.append((item, c))
+            if c in (7, 8):
+                v = item[0]
+                skip = v[6][1] | (1 if c == 7 else 2)
+                again.append(((v[:6] + ((v[6][0], skip, v[6][2]),) + v[7:],) + item[1:]))
+        if not again: break
+        acodes, n2b = run_model(GRAM, [it[0] for it in again], seed=seed, coq_sample=2, tag="c05gram%d" % rnd); nk += n2b
+        todo = list(zip(again, acodes))
+    for (v, meta, txt, spec, gexc), c in results:
         if c == 0: continue
         case = dict(meta)
-        obs = dict(outcome=v[6][0], methods_used=[METHODS[u] if u < 3 else "?" for u in v[2]], new_grammar=v[6][1], exception=repr(gexc) if gexc is not None else None)
+        obs = dict(outcome=v[6][0], methods_used=[METHODS[u] if u < 3 else "?" for u in v[2]], new_grammar=v[6][2], exception=repr(gexc) if gexc is not None else None)
         fk = None
         if c == 7 and meta["entry"] == "fgg" and meta["method"] != "min_fill" and set(v[2]) <= {0}: fk = F7_KEY
         if c == 8 and meta["entry"] == "fgg" and f20_predicate(spec): fk = F20_KEY
